@@ -341,8 +341,6 @@ impl PartialEq for Value {
     }
 }
 
-impl Eq for Value {}
-
 impl PartialOrd for Value {
     fn partial_cmp(&self, other: &Self) -> Option<Ordering> {
         match (self, other) {
